@@ -18,6 +18,8 @@ func init() {
 		"(3) PREFIX: every copy engine drains wrapper-buffered bytes (tryRelayGatherWrite) before any callee that unwraps to the raw socket, every unwrappable buffering wrapper exposes its buffered bytes, the gather-write kill switch has no non-test writer; " +
 		"(4) CURSOR: every TakeRelayPrefix advances its cursor on every path that returns bytes; (5) WIRING: handleConn wraps in DNS-detect -> bufio -> prefetch -> sniffer order and hands the outermost wrapper to the relay. " +
 		"(6) SHORTWRITE: in every Read/Write copy loop the refill and the success returns lie behind the write-complete edge, the short-write edge only returns errors; (7) ADVANCE: loop-carried cursors of the writev/splice loops are advanced by the same iteration's I/O count, never by a running total. " +
+		"(8) ARMED: every read of a deadline-bounded detection window is dominated by the arm; (9) POOLCLEAN: a splice pipe returns to the pool only on the edge where it holds no bytes; (10) DETECTEOF: a timeout or client FIN during the sniff prefetch is never an error; (11) BUFALIAS: the bufio reader whose buffer TakeRelayPrefix aliases is not larger than the relay buffer the gather write reads the body with. " +
+		"(12) CAPABILITY: every method named like a relay capability makes its type implement that capability interface, and every client-side wrapper implements WriteCloser (the half-close is forwarded by type assertion); (13) CONSUME: once the port-53 detection read consumed a frame the fast path never reports handled=false. " +
 		"Not decided: byte-stream equality under all segmentations, arithmetic inside relayAdvanceSegments, timing."})
 }
 
@@ -27,6 +29,7 @@ func runC05(c *Ctx) {
 	us = append(us, units(c.P, "component/sniffing", nil)...)
 	arms := pairDeadlines(c, "PAIR.deadline", us)
 	c.R.Floor("PAIR.deadline", arms, 8)
+	c.R.Floor("ARMED", armedReads(c, "ARMED", us), 2)
 
 	c05HalfClose(c)
 	c05Prefix(c)
@@ -34,6 +37,11 @@ func runC05(c *Ctx) {
 	c05Wiring(c)
 	c05ShortWrite(c)
 	c05Advance(c)
+	c05PoolClean(c)
+	c05DetectEOF(c)
+	c05BufAlias(c)
+	c05Capability(c)
+	c05Consume(c)
 }
 
 // findLit returns the function literal inside f that evaluates a call to ref.
